@@ -104,9 +104,14 @@ Proof. reflexivity. Qed.
 
 (* what a decoder call must satisfy: the model decodes to (ch, rest), rest being s without its first k units, and the
    translated function returns that code point and the index advanced by k *)
+(* what a decoder returns: a code point below 2^21 or the in-band mark of an error *)
+Definition decoded_class (ch : N) : Prop :=
+  (ch < 2097152)%N \/ exists e, In e Utf.LeafBridge.enumerators /\ is_error e = true /\ ch = error_char e.
+
 Definition ext_ok (m : outcome (N * list N)) (srcv : Z * Z) (s : list N) (i : Z) : Prop :=
   match m with
-  | Ok (ch, rest) => exists k, (1 <= k <= length s)%nat /\ rest = skipn k s /\ srcv = (Z.of_N ch, i + Z.of_nat k) /\ (ch < 4294967296)%N
+  | Ok (ch, rest) => exists k, (1 <= k <= length s)%nat /\ rest = skipn k s /\ srcv = (Z.of_N ch, i + Z.of_nat k) /\ (ch < 4294967296)%N /\
+                               decoded_class ch
   | _ => False
   end.
 
@@ -115,7 +120,8 @@ Proof. intros R H. exact (R k H). Qed.
 
 Ltac err_leaf E :=
   exists 1%nat; split; [cbn [length]; lia|]; split; [reflexivity|]; split;
-  [ f_equal; exact (error_char_src E ltac:(cbn; tauto)) | reflexivity ].
+  [ f_equal; exact (error_char_src E ltac:(cbn; tauto))
+  | split; [reflexivity | right; exists E; split; [cbn; tauto | split; reflexivity]] ].
 
 Theorem extract_utf8_matches : forall s i p, s <> [] -> all_lt 256 s = true -> shows Z.of_N p i s ->
   ext_ok (extract_utf8 s) (src_extract_utf8 p i (i + Z.of_nat (length s))) s i.
@@ -129,7 +135,7 @@ Proof.
   fold (V b0). rewrite T1, T2, T3, T4.
   replace (i + 1 + 1 + 1) with (i + 3) by lia. replace (i + 1 + 1) with (i + 2) by lia.
   destruct (b0 <? 128)%N eqn:E1.
-  { cbn [ext_ok]. exists 1%nat. split; [cbn [length]; lia|]. split; [reflexivity|]. split; [rewrite W0; reflexivity|lia]. }
+  { cbn [ext_ok]. exists 1%nat. split; [cbn [length]; lia|]. split; [reflexivity|]. split; [rewrite W0; reflexivity|split; [lia|left; lia]]. }
   destruct (N.land b0 224 =? 192)%N.
   { destruct s1 as [|b1 s2].
     { cbn [at_least negb bind length]. replace (i + 2 >? i + Z.of_nat 1) with true by lia. cbn [orb ext_ok]. err_leaf CIncompleteUtf8. }
@@ -140,7 +146,7 @@ Proof.
     replace (i + 2 >? i + Z.of_nat (S (S (length s2)))) with false by lia. cbn [orb].
     destruct (cont b1); cbn [negb bind ext_ok]; [|err_leaf CIncompleteUtf8].
     rewrite K2, B1. destruct (lor_step _ _ L2 M1) as [EV LV]. rewrite EV.
-    exists 2%nat. split; [cbn [length]; lia|]. split; [reflexivity|]. split; [reflexivity|lia]. }
+    exists 2%nat. split; [cbn [length]; lia|]. split; [reflexivity|]. split; [reflexivity|split; [lia|left; lia]]. }
   destruct (N.land b0 240 =? 224)%N.
   { destruct s1 as [|b1 s2].
     { cbn [at_least negb bind length]. replace (i + 3 >? i + Z.of_nat 1) with true by lia. cbn [orb ext_ok]. err_leaf CIncompleteUtf8. }
@@ -158,7 +164,7 @@ Proof.
     destruct (cont b2); cbn [negb bind orb ext_ok]; [|err_leaf CIncompleteUtf8].
     rewrite K3, B1, B2. destruct (lor_step _ _ L3 M1) as [EV1 LV1]. rewrite EV1.
     destruct (lor_step _ _ LV1 M2) as [EV2 LV2]. rewrite EV2.
-    exists 3%nat. split; [cbn [length]; lia|]. split; [reflexivity|]. split; [reflexivity|lia]. }
+    exists 3%nat. split; [cbn [length]; lia|]. split; [reflexivity|]. split; [reflexivity|split; [lia|left; lia]]. }
   destruct (N.land b0 248 =? 240)%N.
   { destruct s1 as [|b1 s2].
     { cbn [at_least negb bind length]. replace (i + 4 >? i + Z.of_nat 1) with true by lia. cbn [orb ext_ok]. err_leaf CIncompleteUtf8. }
@@ -182,7 +188,7 @@ Proof.
     destruct (cont b3); cbn [negb bind orb ext_ok]; [|err_leaf CIncompleteUtf8].
     rewrite K4, B1, B2, B3. destruct (lor_step _ _ L4 M1) as [EV1 LV1]. rewrite EV1.
     destruct (lor_step _ _ LV1 M2) as [EV2 LV2]. rewrite EV2. destruct (lor_step _ _ LV2 M3) as [EV3 LV3]. rewrite EV3.
-    exists 4%nat. split; [cbn [length]; lia|]. split; [reflexivity|]. split; [f_equal; lia|lia]. }
+    exists 4%nat. split; [cbn [length]; lia|]. split; [reflexivity|]. split; [f_equal; lia|split; [lia|left; lia]]. }
   cbn [ext_ok]. err_leaf CInvalidUtf8.
 Qed.
 
@@ -247,7 +253,7 @@ Proof.
   change 55296 with (Z.of_N 55296). change 57343 with (Z.of_N 57343). change 56320 with (Z.of_N 56320). change 56319 with (Z.of_N 56319).
   rewrite !geb_N, !leb_N, !ltb_N.
   destruct ((55296 <=? u0)%N && (u0 <=? 57343)%N).
-  2:{ cbn [ext_ok]. exists 1%nat. split; [cbn [length]; lia|]. split; [reflexivity|]. split; [reflexivity|lia]. }
+  2:{ cbn [ext_ok]. exists 1%nat. split; [cbn [length]; lia|]. split; [reflexivity|]. split; [reflexivity|split; [lia|left; lia]]. }
   destruct s1 as [|u1 s2].
   { cbn [at_least negb length]. replace (i + 1 >=? i + Z.of_nat 1) with true by lia. cbn [ext_ok]. err_leaf CIncompleteSurrogate. }
   destruct (all_lt_cons _ _ _ A1) as [H1 A2].
@@ -258,8 +264,8 @@ Proof.
   destruct (u0 <? 56320)%N.
   - cbn [bind]. destruct ((56320 <=? u1)%N && (u1 <=? 57343)%N); cbn [ext_ok]; [|err_leaf CIncompleteSurrogate].
     assert (LD1' : (N.land u1 1023 < 1048576)%N) by lia. rewrite KC0, KD1, (sum_step _ _ LC0 LD1').
-    exists 2%nat. split; [cbn [length]; lia|]. split; [reflexivity|]. split; [reflexivity|lia].
+    exists 2%nat. split; [cbn [length]; lia|]. split; [reflexivity|]. split; [reflexivity|split; [lia|left; lia]].
   - cbn [bind]. destruct ((55296 <=? u1)%N && (u1 <=? 56319)%N); cbn [ext_ok]; [|err_leaf CIncompleteSurrogate].
     assert (LD0' : (N.land u0 1023 < 1048576)%N) by lia. rewrite KD0, KC1, (sum_step _ _ LD0' LC1).
-    exists 2%nat. split; [cbn [length]; lia|]. split; [reflexivity|]. split; [reflexivity|lia].
+    exists 2%nat. split; [cbn [length]; lia|]. split; [reflexivity|]. split; [reflexivity|split; [lia|left; lia]].
 Qed.
